@@ -5,7 +5,7 @@ set -e
 cd "$(dirname "$0")"
 export GOFLAGS=-mod=vendor GOPROXY=off GOSUMDB=off GOTOOLCHAIN=local GOWORK=off
 mkdir -p bin evidence
-(cd checker && go build -o ../bin/wscheck .)
+(cd checker && go build -o ../bin/wscheck . && go build -o ../bin/wrapgen ./wrapgen)
 REPO="${VERIF_REPO:-/repo}"
 (cd "$REPO" && GOFLAGS=-mod=mod go build ./... >/dev/null 2>&1 || true)
 echo "setup ok"
